@@ -162,7 +162,7 @@ func Gen(seed uint64, faulty bool) *Workload {
 			}
 		}
 	}
-	w.RemoteV = []string{"v1", "master", "main", "develop", "v1"}[r.Intn(5)]
+	w.RemoteV = []string{"v1", "master", "main", "develop", "v1", "feature/x", "release/1.0"}[r.Intn(7)]
 	if w.Family == "divergent" {
 		w.RemoteV = []string{"master", "main", "develop"}[r.Intn(3)]
 	}
